@@ -29,6 +29,7 @@ import numpy as np
 from . import common
 
 METRICS = ("supremum", "manhattan", "euclidean")
+SETTER_CRP = {"t": "set_fixed_threshold", "r": "set_fixed_recurrence_rate"}
 
 
 # --------------------------------------------------------------------------
@@ -837,6 +838,41 @@ def run(ctx):
         if CR.tolist() != exp:
             ctx.fail(dict(sig, issue="entries"), "cross recurrence matrix differs from the definition",
                      dict(replay, expected=enc_bmat(exp), observed=enc_bmat(CR)))
+        # history on the same object: a trajectory is replaced through its property setter and
+        # the plot re-thresholded (the distance matrices are cached per embedding state)
+        if len(sx) >= 1 and len(sy) >= 1 and rng.random() < 0.6:
+            dimc = len(sx[0])
+            which = rng.choice("xy")
+            new = gen_series(rng, gen_len(rng, quick), dimc)
+            kind2 = rng.choice("tr")
+            spec2 = (kind2, gen_eps(rng) if kind2 == "t" else gen_rate(rng))
+            ctx.count(f"CrossRecurrencePlot:replace-{which}-trajectory:{kind2}")
+            rep2 = dict(replay, replaced=which, new_trajectory=new.tolist(),
+                        setter=SETTER_CRP[kind2], setter_arg=float(spec2[1]))
+            X2, Y2 = (new, rows_to_array(sy)) if which == "x" else (rows_to_array(sx), new)
+            try:
+                obj.distance_matrix(metric)          # make sure the old matrix is in the cache
+                setattr(obj, which + "_embedded", caller_array(rng, new))
+                getattr(obj, SETTER_CRP[kind2])(float(spec2[1]))
+                CR2 = np.asarray(obj.recurrence_matrix())
+                reqs.append(f"crp {metric} - {enc_spec(spec2)} {enc_vmat(X2)} {enc_vmat(Y2)}")
+                impl.append(f"N={int(obj.N)} M={int(obj.M)} R={enc_bmat(CR2)}")
+                s2x, s2y = q_states(X2, None), q_states(Y2, None)
+                exp2 = (q_matrix(metric, s2x, s2y, spec2[1]) if kind2 == "t"
+                        else q_rate_matrix(q_dists(metric, s2x, s2y), spec2[1])[0])
+                if CR2.shape != (len(s2x), len(s2y)) or CR2.tolist() != exp2:
+                    ctx.fail(dict(sig, issue="entries", step="trajectory-replaced"),
+                             f"CrossRecurrencePlot: after replacing {which}_embedded and "
+                             f"{SETTER_CRP[kind2]} the matrix is not the thresholded cross distance "
+                             "matrix of the current trajectories",
+                             dict(rep2, expected=enc_bmat(exp2), observed=enc_bmat(CR2)))
+                CR = CR2
+            except Exception as ex:  # noqa
+                ctx.fail(dict(sig, issue="raises", step="trajectory-replaced",
+                              error=type(ex).__name__),
+                         f"CrossRecurrencePlot: replacing {which}_embedded + {SETTER_CRP[kind2]} raised "
+                         f"{type(ex).__name__}: {ex}", rep2)
+                continue
         if CR.size:
             try:
                 rr = obj.recurrence_rate()
@@ -1638,6 +1674,11 @@ def run(ctx):
                         impl.append("undefined" if not np.isfinite(val) else f"float:{val}")
                     else:
                         impl.append(enc_fr(Fr(dsum, den)) if float(val) == dsum / den else f"float:{val}")
+                        if float(val) != dsum / den:
+                            ctx.fail(dict(kind="rqa-applicable", cls=tag, method=nm, error="value"),
+                                     f"{klass.__name__}.recurrence_probability({lag_}) = {val}: the "
+                                     f"{lag_}-th diagonal has {dsum} recurrences out of {den}",
+                                     dict(replay, lag=lag_, expected=dsum / den, observed=float(val)))
                 if nm == "twins" and tag != "crp":
                     md = a[0] if a else 7
                     Nn = Rm.shape[0]
